@@ -150,7 +150,7 @@ func (s *worldStream) genVote(r *tr.Rng, method string, payload []byte) voteSpec
 	sp := voteSpec{cls: "valid-quorum", seq: v.seq, epoch: v.rel.Epoch, method: method, chain: s.chain, proposer: v.rel.Proposer, payload: payload, msgProp: v.rel.Proposer}
 	sp.marks = subset(t - 1 + r.Intn(n-(t-1)+1))
 	sp.signers = addrOf(sp.marks)
-	switch r.Intn(26) {
+	switch r.Intn(28) {
 	case 0, 1, 2, 3, 4, 5, 6, 7:
 	case 8:
 		sp.cls, sp.marks = "exact-threshold", subset(t-1)
@@ -245,6 +245,14 @@ func (s *worldStream) genVote(r *tr.Rng, method string, payload []byte) voteSpec
 	case 24:
 		sp.cls = "nil-vote"
 		sp.noVote = true
+	case 26: // boundary: a mark at position exactly n (the first position that is not a voter) replaces one genuine signer
+		in := subset(t - 2)
+		sp.cls = "mark-exactly-at-n"
+		sp.marks = append(append([]uint32{}, in...), uint32(n))
+		sp.signers = addrOf(in)
+	case 27: // a genuine quorum plus one mark at n or n+1: still not "every mark denotes a voter"
+		sp.cls = "quorum-plus-mark-at-n"
+		sp.marks = append(append([]uint32{}, sp.marks...), uint32(n+r.Intn(2)))
 	case 25:
 		sp.cls = "stale-seq-in-msg"
 		// message claims another sequence/epoch than the current one (doc signed for that one)
